@@ -71,6 +71,33 @@ macro_rules! concrete {
         }
     };
 }
+macro_rules! concrete_io {
+    ($name:expr, $bytes:expr, $scratch:expr, $($n:literal => $t:ty, $k:expr);* $(;)?) => {
+        match $name {
+            $( $n => {
+                let mut rd: &[u8] = $bytes;
+                let r = postcard::from_io::<$t, _>((&mut rd, $scratch)).map(|_| ()).map_err(|e| err_name(&e));
+                Some((r.map(|_| rd.len()), $k))
+            } )*
+            _ => None,
+        }
+    };
+}
+/// the same concrete types through the reader path (owned types only)
+fn decode_concrete_io(name: &str, bytes: &[u8], scratch: &mut [u8]) -> Option<(Result<usize, &'static str>, usize)> {
+    concrete_io!(name, bytes, scratch,
+        "vec_u8" => Vec<u8>, 16;
+        "vec_u64" => Vec<u64>, 64;
+        "vec_u128" => Vec<u128>, 128;
+        "string" => String, 16;
+        "vec_string" => Vec<String>, 256;
+        "vec_vec_u16" => Vec<Vec<u16>>, 256;
+        "vec_pair" => Vec<(u8, u32)>, 64;
+        "pair" => (Vec<u16>, String), 64;
+        "vec_opt" => Vec<Option<u64>>, 128;
+        "bytebuf" => (u8, Vec<u8>), 16;
+    )
+}
 
 /// (result: remaining length or error, allowed bytes per input byte)
 fn decode_concrete(name: &str, bytes: &[u8]) -> Option<(Result<usize, &'static str>, usize)> {
@@ -123,11 +150,17 @@ pub fn eval(ctx: &mut Ctx, op: &str, args: &[Sexp]) -> Option<String> {
                 let mut scratch = Pages::new(&vec![0u8; scratch_len], true);
                 let mut rd: &[u8] = &bytes;
                 BORROWS.with(|b| b.borrow_mut().clear());
+                HINTS.with(|h| h.borrow_mut().clear());
                 let sbase = scratch.slice().as_ptr() as usize;
                 let r = guard(|| with_ty(&t, || postcard::from_io::<DynVal, _>((&mut rd, scratch.slice_mut())).map(|(v, (_, rest))| (v.0, rest.len())).map_err(|e| err_name(&e))));
                 match r {
                     Err(()) => return Some("FAIL panic while decoding from a reader".into()),
                     Ok(r) => {
+                        for h in HINTS.with(|h| std::mem::take(&mut *h.borrow_mut())).into_iter().flatten() {
+                            if h > scratch_len.max(bytes.len()) {
+                                ctx.oracle_fail(format!("reader: a sequence visitor was given size hint {} (input {} bytes, scratch {} bytes)", h, bytes.len(), scratch_len));
+                            }
+                        }
                         let bs = BORROWS.with(|b| std::mem::take(&mut *b.borrow_mut()));
                         let mut prev = 0usize;
                         for (p, l, _) in bs {
@@ -167,6 +200,25 @@ pub fn eval(ctx: &mut Ctx, op: &str, args: &[Sexp]) -> Option<String> {
             };
             if used > k * bytes.len() + 1024 {
                 ctx.oracle_fail(format!("decoding {} input bytes as {} allocated {} bytes (bound {} * len + 1024)", bytes.len(), name, used, k));
+            }
+            // the same through a byte reader with a scratch buffer as large as the input
+            let mut scratch = vec![0u8; bytes.len()];
+            ALLOC_LIMIT.store(ALLOCATED.load(Ordering::Relaxed) + (1 << 30), Ordering::Relaxed);
+            let before = ALLOCATED.load(Ordering::Relaxed);
+            let rio = guard(|| decode_concrete_io(name, &bytes, &mut scratch));
+            let used_io = ALLOCATED.load(Ordering::Relaxed) - before;
+            ALLOC_LIMIT.store(usize::MAX, Ordering::Relaxed);
+            match rio {
+                Err(()) => return Some("FAIL panic while decoding from a reader".into()),
+                Ok(Some((r2, _))) => {
+                    if r2.is_ok() != res.is_ok() {
+                        ctx.oracle_fail(format!("reader path {:?} vs slice path {:?}", r2, res));
+                    }
+                }
+                Ok(None) => {}
+            }
+            if used_io > k * bytes.len() + 1024 {
+                ctx.oracle_fail(format!("reader path: decoding {} input bytes as {} allocated {} bytes (bound {} * len + 1024)", bytes.len(), name, used_io, k));
             }
             Some(match res {
                 Ok(rest) => format!("ok consumed={}", bytes.len() - rest),
